@@ -33,12 +33,14 @@ TFinal == IsEv("Final") /\ UNCHANGED vars
 
 \* single-branch scenarios: the registered lock keys name every row the local transaction changed
 TCover == IsEv("Cover") /\ Trace[l].covered = TRUE /\ UNCHANGED vars
+\* ... and a locking read of the same rows asks the coordinator about exactly them, by the same key text
+TSfuKeys == IsEv("SfuKeys") /\ Trace[l].same = TRUE /\ UNCHANGED vars
 TAbort == IsEv("Abort") /\ UNCHANGED vars
 TEnd1  == IsEv("End") /\ ~("g" \in DOMAIN Trace[l]) /\ UNCHANGED vars
 \* one row has one key text whatever statement form touched it
 TCanon == IsEv("Canon") /\ Trace[l].distinct <= 1 /\ UNCHANGED vars
 
-TraceNext == TWrite \/ TSfu \/ TEnd2 \/ TFinal \/ TCover \/ TAbort \/ TEnd1 \/ TCanon
+TraceNext == TWrite \/ TSfu \/ TEnd2 \/ TFinal \/ TCover \/ TSfuKeys \/ TAbort \/ TEnd1 \/ TCanon
 TraceSpec == TraceInit /\ [][TraceNext]_tvars
 
 Invs == [NoDirty |-> NoDirty]
